@@ -20,7 +20,7 @@ Section Leaf.
   Definition sound_at (k k' : pkind) : Prop :=
     forall v pv hc n,
       CK k false false v = Ok (pv, hc) ->
-      hc = false /\ valid_kind sp pok (S n) k' (encode false pv) = true.
+      hc = false /\ nice pv /\ valid_kind sp pok (S n) k' (encode false pv) = true.
 
   Lemma ver_eqb_eq a b : ver_eqb a b = true -> a = b.
   Proof. destruct a, b; simpl; intros; auto; discriminate. Qed.
@@ -31,9 +31,9 @@ Section Leaf.
 
   Lemma clean_string_sound v pv hc k' n :
     clean_string v = Ok (pv, hc) -> is_stringy k' = true ->
-    hc = false /\ valid_kind sp pok (S n) k' (encode false pv) = true.
+    hc = false /\ nice pv /\ valid_kind sp pok (S n) k' (encode false pv) = true.
   Proof.
-    unfold clean_string. intros H Hk. inv_bind H. inversion Hb; subst. split; auto.
+    unfold clean_string. intros H Hk. inv_bind H. inversion Hb; subst. split; [auto|split; [exact I|]]; auto.
     simpl encode. apply stringy_valid; auto.
   Qed.
 
@@ -50,7 +50,7 @@ Section Leaf.
   Lemma sound_fixed fv a fv' a' : ustr_eqb fv fv' = true -> sound_at (KFixed fv a) (KFixed fv' a').
   Proof.
     intros E v pv hc n H. simpl in H. apply ustr_eqb_eq in E. subst fv'.
-    destruct (jvalue_eqb v (JStr fv)) eqn:Ev; try discriminate. inversion H; subst. split; auto.
+    destruct (jvalue_eqb v (JStr fv)) eqn:Ev; try discriminate. inversion H; subst. split; [auto|split; [exact I|]]; auto.
   Qed.
 
   (* ---- integers ---- *)
@@ -64,7 +64,7 @@ Section Leaf.
     destruct (py_int v) as [z| |] eqn:Ez; try discriminate.
     destruct (match mn with Some b => (z <? b)%Z | None => false end) eqn:E1; try discriminate.
     destruct (match mx with Some b => (b <? z)%Z | None => false end) eqn:E2; try discriminate.
-    inversion H; subst. split; auto.
+    inversion H; subst. split; [auto|split; [exact I|]]; auto.
     change (number_in_bounds mn' mx' (JInt z) = true). unfold number_in_bounds.
     cbv beta iota.
     apply andb_true_iff. split.
@@ -81,8 +81,8 @@ Section Leaf.
   Proof.
     intros v pv hc n H. simpl in H. unfold clean_bool in H.
     assert (G : forall b, Ok (PJ (JBool b), false) = Ok (pv, hc) ->
-                          hc = false /\ valid_kind sp pok (S n) KBool (encode false pv) = true).
-    { intros b E. inversion E; subst. split; auto. }
+                          hc = false /\ nice pv /\ valid_kind sp pok (S n) KBool (encode false pv) = true).
+    { intros b E. inversion E; subst. split; [auto|split; [exact I|]]; auto. }
     destruct v; try discriminate; eauto.
     - destruct (z =? 1)%Z; eauto. destruct (z =? 0)%Z; eauto. discriminate.
     - destruct (dec_of_repr repr) as [me|]; try discriminate.
@@ -100,7 +100,7 @@ Section Leaf.
   Lemma sound_enum a a' : usubset a a' = true -> sound_at (KEnum a) (KEnum a').
   Proof.
     intros Hs v pv hc n H. simpl in H. inv_bind H.
-    destruct (mem_ustr a0 a) eqn:E; try discriminate. inversion Hb; subst. split; auto.
+    destruct (mem_ustr a0 a) eqn:E; try discriminate. inversion Hb; subst. split; [auto|split; [exact I|]]; auto.
     simpl. eapply usubset_mem; eauto.
   Qed.
 
@@ -108,14 +108,14 @@ Section Leaf.
   Lemma sound_hex : vr_hex_z vr = true -> sound_at KHex KHex.
   Proof.
     intros Hz v pv hc n H. simpl in H. destruct v; try discriminate.
-    rewrite Hz in H. destruct (re_hex_pairs true s) eqn:E; try discriminate. inversion H; subst. split; auto.
+    rewrite Hz in H. destruct (re_hex_pairs true s) eqn:E; try discriminate. inversion H; subst. split; [auto|split; [exact I|]]; auto.
     simpl. unfold re_hex_pairs, dollar in E. simpl in E. rewrite orb_false_r in E. exact E.
   Qed.
 
   Lemma sound_binary : sound_at KBinary KBinary.
   Proof.
     intros v pv hc n H. simpl in H. destruct v; try discriminate.
-    destruct (all_ascii s && b64_ok s); try discriminate. inversion H; subst. split; auto.
+    destruct (all_ascii s && b64_ok s); try discriminate. inversion H; subst. split; [auto|split; [exact I|]]; auto.
   Qed.
 
   (* ---- selectors ---- *)
@@ -141,7 +141,7 @@ Section Leaf.
   Proof.
     intros Hz v pv hc n H. simpl in H. destruct v; try discriminate.
     destruct (negb (all_ascii s)); try discriminate. rewrite Hz in H.
-    destruct (re_selector true (vr_sel_upper vr) s) eqn:E; try discriminate. inversion H; subst. split; auto.
+    destruct (re_selector true (vr_sel_upper vr) s) eqn:E; try discriminate. inversion H; subst. split; [auto|split; [exact I|]]; auto.
     simpl. unfold re_selector, dollar in E. simpl in E. rewrite orb_false_r in E. eapply sel_gen_mono; eauto.
   Qed.
 
@@ -174,7 +174,7 @@ Section Leaf.
   Lemma sound_dict vv vv' : ver_eqb vv vv' = true -> vr_key_z vr = true -> sound_at (KDict vv) (KDict vv').
   Proof.
     intros Ev Hz v pv hc n H. apply ver_eqb_eq in Ev. subst vv'. simpl in H. inv_bind H.
-    inversion Hb; subst. split; auto. apply clean_dictionary_inv in Ha. destruct Ha as [-> [Hk Hne]].
+    inversion Hb; subst. split; [auto|split; [exact I|]]; auto. apply clean_dictionary_inv in Ha. destruct Ha as [-> [Hk Hne]].
     simpl. rewrite (clean_dict_keys_ok _ _ Hz Hk), andb_true_r. destruct a; auto; contradiction.
   Qed.
 End Leaf.
